@@ -170,7 +170,7 @@ def _find_terminal_instruction(snapshot, ctls, start, end, rst_handler, ctl=None
     address = start
     while address < end:
         i_addr, size, max_count, op_id = next(decode(snapshot, address, address + 1, rst_handler))[:4]
-        address += size
+        address = min(address + size, end)
         if ctl is None:
             for a in range(i_addr, address):
                 if a in ctls:
@@ -355,7 +355,7 @@ def _generate_ctls_without_code_map(snapshot, start, end, config, rst_handler):
             # Catch data-like sequences that precede a terminal instruction
             ctl_addr = _catch_data(ctls, ctl_addr, count, prev_max_count, addr, prev_op_bytes)
             ctls.append((ctl_addr, 'c'))
-            ctl_addr = addr + size
+            ctl_addr = min(addr + size, end)
             prev_max_count, prev_op_id, prev_op, prev_op_bytes = 0, None, None, ()
             count = 1
             continue
